@@ -53,6 +53,39 @@ def server_conformance(ck, name, items):
     return out
 
 
+def server_l2(ck, name, R, cap, num, traps):
+    """L2 (spec -> code): TLC behaviours of ServerCore (random simulation + shortest paths to the trap goals) steer the real
+    caller / worker / gather / notification threads: the thread of the behaviour's next step runs, worker completions are gated,
+    scripted deadline expiries fire that thread's timer.  The executions are validated by TLC like any other."""
+    cfg = core_cfg(R, cap, 'NoStream', [])
+    res, behs = tlc.simulate('ServerCoreMC', cfg, num=num, depth=120, seed=1 + ck.seed)
+    behs = list(behs)
+    for goal in traps:
+        b = ck.trap(goal, 'ServerCoreMC', core_cfg(R, cap, 'NoStream', [goal]))
+        behs += [b, b, b]        # corner behaviours are steered three times (different tie-breaking seeds)
+    items = []
+    for k, b in enumerate(behs):
+        it = SB.behaviour_to_item(b, R, cap)
+        if it:
+            items.append({'id': k + 1, 'seed': k, **it})
+    out = ck.run_binder('servercore', items, timeout=1200)
+    ck.evaluations += int(out.get('n_exec', 0))
+    for h in out.get('hangs', []):
+        ck.violation({'leg': 'L2', 'name': name, 'kind': 'hang-or-crash', 'status': h['status'], 'detail': h.get('detail'),
+                      'waitmap': h.get('waitmap'), 'exc': h.get('exc'), 'thread_errors': h.get('thread_errors'),
+                      'item': {'sc': h['sc'], 'seed': h['seed']}, 'events': h['ev'][-80:]},
+                     sig={'leg': 'L2', 'kind': 'hang', 'status': h['status'], 'exc': (h.get('exc') or '')[:60]})
+    trs = out.get('traces', [])
+    before = ck.traces
+    ck.validate(name, 'ServerCoreTrace', trace_cfg(R, cap, False), trs, sig_of=lambda t, v: {'flavour': 'sync'})
+    ck.replays += ck.traces - before
+    ck.traces = before
+    ck.legs[-1].update(leg='L2', behaviours=len(behs), replayed=len(trs),
+                       steps=sum(t['l2']['steps'] for t in trs), followed=sum(t['l2']['followed'] for t in trs))
+    if trs:
+        ck.sample({'kind': 'tlc_behaviour_replayed', 'p': trs[-1]['p'], 'l2': trs[-1]['l2'], 'events': trs[-1]['ev'][:30]})
+
+
 def c06(ck, replay=None):
     thorough = ck.tier == 'thorough'
     R = 4 if thorough else 3
@@ -71,6 +104,8 @@ def c06(ck, replay=None):
                  core_cfg(3, 2, 'AllMixes', ['NoLostResponse'], ledger_first=False), 'invariant', 'NoLostResponse')
     server_conformance(ck, 'Server/AsyncServer capacity protocol under detsched',
                        server_items(ck, 250 if thorough else 50, 8 if thorough else 4))
+    server_l2(ck, 'TLC behaviours steered into Server (capacity corners)', 3, 1, 150 if thorough else 30,
+              ('Trap_WaiterWokenWhileFull', 'Trap_NotificationSwallowed', 'Trap_TimeoutWhileWaitingForSlot'))
     ck.assumptions += ['servlet tree abstracted to "result emerges after any delay, in any order" (ThreadServlet of harness '
                        'workers in the conformance leg)', 'virtual time; a due timer may be overtaken by at most 0.03 s']
     ck.finish_rc = ck.finish(rule='backlog is logged on every ledger insert/pop and compared with the model on every '
@@ -93,5 +128,7 @@ def c07(ck, replay=None):
     rnd = random.Random(ck.seed * 1000003 + 43)
     server_conformance(ck, 'timeouts / abandoned streams racing the gather thread',
                        server_items(ck, 250 if thorough else 50, 8 if thorough else 4, salt=47))
+    server_l2(ck, 'TLC behaviours steered into Server (cancel inside the gather thread\'s check/set window)', 3, 1,
+              150 if thorough else 30, ('Trap_CancelBetweenCheckAndSet', 'Trap_CancelInWindowWhileWaiter'))
     ck.finish_rc = ck.finish(rule='deadlines comparable to service times under bounded-lag adversarial virtual time; '
                              'every order of {deadline, cancel} vs {pop, check, set} is a path of the model')
